@@ -210,7 +210,34 @@ func runOp(r *lib.Run, line string) {
 
 // ---------------------------------------------------------------- generator
 
+// querySub: `plz query deps` (NeedBuild off) on packages that subinclude targets. 0 depends on 1, whose package
+// subincludes the slow 3, so the queuer that activated 0 without building it sits for a while waiting for that package
+// to be parsed; meanwhile package 2 subincludes 0 and thereby forces its build, which must still wait for 1.
+func querySub(rng *lib.Rng, r *lib.Run) *sched.Case {
+	c := &sched.Case{Query: true}
+	c.Targets = []sched.Target{
+		{Pkg: 0, Deps: []int{1}},
+		{Pkg: 1, SleepMs: 600 + rng.Intn(600)},
+		{Pkg: 2},
+		{Pkg: 3, SleepMs: 900 + rng.Intn(900)},
+	}
+	c.Subs = [][2]int{{1, 3}, {2, 0}}
+	c.Roots = []int{0, 2}
+	if rng.Bool() {
+		c.Roots = []int{2, 0}
+	}
+	if rng.Bool() { // a second dependency of 0, in the package of 1
+		c.Targets = append(c.Targets, sched.Target{Pkg: 1, SleepMs: rng.Intn(300)})
+		c.Targets[0].Deps = append(c.Targets[0].Deps, len(c.Targets)-1)
+	}
+	r.Count("shape:query-subinclude")
+	return c
+}
+
 func genDAG(rng *lib.Rng, r *lib.Run, force string) *sched.Case {
+	if force == "query-subinclude" {
+		return querySub(rng, r)
+	}
 	shapes := []string{"random", "random", "diamond", "fanin", "chain", "layers", "tworoots", "provides-late"}
 	shape := lib.Pick(rng, shapes)
 	if force != "" {
@@ -340,6 +367,9 @@ func main() {
 		force := ""
 		if i%4 == 1 {
 			force = "provides-late" // every run has the require/provide + late add_dep shape several times
+		}
+		if i%6 == 2 {
+			force = "query-subinclude"
 		}
 		base := genDAG(r.Rng, r, force)
 		for _, par := range []int{1, 2, 4, 16} {
